@@ -94,6 +94,10 @@ func dtName(d tensor.Dtype) string {
 	if n, ok := dtNames[d]; ok {
 		return n
 	}
+	if d.Type == nil {
+		// the zero Dtype (an entry of a constraint list that was cleared): d.String() would dereference nil
+		return "invalid:zero-dtype"
+	}
 	return "other:" + d.String()
 }
 
